@@ -1,5 +1,5 @@
 (* C12 — node groups are isolated from each other.  Theorems only. *)
-From Esc Require Import Examples proofs.ScanTheorems.
+From Esc Require Import Examples proofs.ScanTheorems proofs.ScanRun proofs.ScanRunTheorems.
 
 (* every call made while processing a group names a node carrying the group's label, the group's own cloud group,
    an instance of that cloud group, or its launch template *)
@@ -38,3 +38,9 @@ Proof.
     eexists; eexists; rewrite Er; reflexivity.
 Qed.
 Print Assumptions c12_containment.
+
+(* over a whole RunOnce: the checker evaluated by the correspondence holds of every group journal the model produces
+   (group names and cloud group names pairwise distinct) *)
+Theorem c12_run_once : forall s, wf_groups s -> for_groups check_C12_group s (run_journals s) = true.
+Proof. exact run_passes_C12. Qed.
+Print Assumptions c12_run_once.
